@@ -162,6 +162,22 @@ def run(prop: str, tier: str, seed: int) -> int:
     rep = Report(prop, tier, seed)
     rng = random.Random(seed * 104729 + 2)
 
+    # ---- the dominance lemma for ALL naturals (TLAPS); the model checks below establish its premises
+    # (1 <= tie-breaker <= scale) on every feasible packing of the scope
+    import re
+    import shutil as _sh
+    import subprocess
+    pdir = core.ROOT / "proofs"
+    _sh.rmtree(pdir / ".tlacache", ignore_errors=True)
+    pr = subprocess.run(["tlapm", "--toolbox", "0", "0", "Dominance.tla"], cwd=str(pdir), capture_output=True,
+                        text=True, timeout=900)
+    _sh.rmtree(pdir / ".tlacache", ignore_errors=True)
+    m = re.search(r"All (\d+) obligations? proved", pr.stdout + pr.stderr)
+    if not m:
+        raise core.MachineryError("TLAPS did not prove proofs/Dominance.tla: " + (pr.stdout + pr.stderr)[-800:])
+    rep.notes.append(f"TLAPS: all {m.group(1)} obligations of proofs/Dominance.tla proved (dominance and conversion "
+                     "lemmas for all naturals)")
+
     # ---- (MC + A) every feasible packing of the tiny scope
     consts = {"quick": {"MaxSide": 2, "MaxTypes": 2, "MaxRep": 2, "MaxN": 3},
               "thorough": {"MaxSide": 3, "MaxTypes": 2, "MaxRep": 2, "MaxN": 3}}[tier]
